@@ -5,6 +5,8 @@
 
 package common
 
+//@ const_global Float64SignalingNan, Float64QuietNan, Float32SignalingNan, Float32QuietNan
+
 //@ func IsNegativeFloat
 //@   inline
 //@ func HasQuietNanBitSet64
